@@ -1282,6 +1282,32 @@ def c16(ctx):
         c.opts = (['SHA1'], False, None, None, 'default', None, None, False)
         cases.append(c)
 
+    # sibling directories whose names are string prefixes of one another, the first with a sub-directory, the second with a link to the first:
+    # a link to a sibling is no loop, for the update / create walk as little as for verification, in every listing order
+    sib = []
+    for a_name, b_name in (('lib', 'lib64'), ('a', 'ab'), ('x1', 'x10')):
+        for order in range(4):
+            for op in ('update', 'verify'):
+                c = GT.Case()
+                t = GT.Tree()
+                lines = []
+                for d in (a_name, a_name + '/sub', b_name):
+                    t.add_dir(d)
+                for fp, data in ((a_name + '/sub/f', b'in the sub-directory\n'), (a_name + '/g', b'g\n'), (b_name + '/h', b'h\n')):
+                    t.add_file(fp, data)
+                    lines.append(ET.entry_line('DATA', fp, data, ['SHA1']))
+                    if fp.startswith(a_name + '/'):
+                        lines.append(ET.entry_line('DATA', b_name + '/x/' + fp[len(a_name) + 1:], data, ['SHA1']))
+                t.link(t.lookup(b_name), 'x', t.lookup(a_name))
+                t.add_file('Manifest', ('\n'.join(lines) + '\n').encode())
+                c.tree = t
+                c.meta.update(dirs=['', a_name, a_name + '/sub', b_name], files=[], manifests=['Manifest'], mutations=['prefix-siblings-with-link:' + a_name + ':' + b_name],
+                              order_seed=order)
+                c.opts = (['SHA1'], False, None, None, 'default', None, None, False)
+                c.ops = [['update', '', [], []], ['files']] if op == 'update' else [['verify', '', 0, []]]
+                sib.append(c)
+    cases += sib
+
     def on_alarm(signum, frame):
         raise TimeoutError('watchdog: the walk did not terminate within 20 s')
     old = signal.signal(signal.SIGALRM, on_alarm)
@@ -1304,6 +1330,11 @@ def c16(ctx):
     reclassify(ctx, 'directory symlinks / filesystem boundary: result differs from the reference (C16)')
     loops = raised = xdev = 0
     for c, i, m in res:
+        if str((c.meta.get('mutations') or [''])[0]).startswith('prefix-siblings-with-link') and i[0] == 'ok' and i[1] and i[1][0][0] == 'err' \
+                and i[1][0][1][0] == 'ManifestSymlinkLoop':
+            ctx.violation('spec', f'ManifestSymlinkLoop raised for a link to a SIBLING directory ({c.meta["mutations"][0]}, {c.ops[0][0]})',
+                          {'tree': describe(c.tree), 'ops': c.ops, 'impl': i})
+            continue
         if i[0] == 'timeout':
             ctx.violation('spec', 'the tree walk did not terminate', {'tree': describe(c.tree), 'ops': c.ops})
             continue
